@@ -323,9 +323,9 @@ class TheoryOracle(walkers.DagWalker):
         for t in args[1:]:
             theory_out = theory_out.combine(t)
         # Check for non-linear
-        left, right = formula.args()
-        if len(left.get_free_variables()) != 0 and \
-           len(right.get_free_variables()) != 0:
+        right = formula.arg(1)
+        if len(right.get_free_variables()) != 0:
+            # Division by a non-constant term is non-linear
             theory_out = theory_out.set_linear(False)
         elif formula.arg(1).is_zero():
             # DivBy0 is non-linear
